@@ -100,6 +100,51 @@ func buildersStore(c *Ctx, pkg string) {
 		c.Unresolved("builders of "+pkg, "no builder anchors resolved")
 	}
 	c.Count("builder anchors of "+pkg, n)
+	if pkg == "circuitbreaker" || pkg == "retrypolicy" {
+		baseDelayBuilders(c)
+	}
+}
+
+// baseDelayBuilders: the delay setters of the shared BaseDelayablePolicy (which the breaker's and the retry policy's
+// WithDelay / WithDelayFunc forward to) store their argument and nothing else: the fixed delay stays the fallback for a
+// delay function that computes none (-1).
+func baseDelayBuilders(c *Ctx) {
+	for _, sp := range []struct{ fn, field string }{
+		{"policy.(*BaseDelayablePolicy).WithDelay", "Delay"},
+		{"policy.(*BaseDelayablePolicy).WithDelayFunc", "DelayFunc"},
+	} {
+		fn := c.P.Func(sp.fn)
+		if fn == nil {
+			c.Unresolved(sp.fn, "not found")
+			continue
+		}
+		ev := NewEvaluator(c.P, EvalConfig{})
+		ps := ev.Run(fn)
+		if ev.Err != nil || len(ps) == 0 || len(fn.Params) < 2 {
+			c.Undecided(sp.fn, c.P.FuncPos(fn), fmt.Sprintf("evaluation failed: %v", ev.Err), "")
+			continue
+		}
+		recv, arg := ev.Param(fn, fn.Params[0].Name()), ev.Param(fn, fn.Params[1].Name())
+		ok := true
+		for _, p := range ps {
+			if p.Exit != ExitReturn {
+				continue
+			}
+			if ev.LoadField(p.State, recv, sp.field) != arg {
+				ok = false
+				c.Fail(sp.fn, c.P.FuncPos(fn), fn.Name()+" must store its argument as "+sp.field, pathTrace(ev, p))
+			}
+			for _, ch := range changedFields(ev, p, recv) {
+				if ch != sp.field {
+					ok = false
+					c.Fail(sp.fn, c.P.FuncPos(fn), fn.Name()+" also changes "+ch+": the other delay setting must survive (a delay function that computes no delay falls back to the fixed delay)", pathTrace(ev, p))
+				}
+			}
+		}
+		if ok {
+			c.Ok(sp.fn, c.P.FuncPos(fn), "stores its argument as "+sp.field+" and nothing else")
+		}
+	}
 }
 
 // delegatingBuilders: the convenience forms are exactly their general forms.
